@@ -357,6 +357,44 @@ func r10_4(r *Report, p *Program, entries []syncEntry) {
 			return false
 		})
 		r.Check(rule, FK(f)+"[dying-parent-gate]", p.InstrPos(in), w == nil, "children managed only for a live parent or one we finalize", "ManageChildren reachable for a dying parent without ShouldFinalize (or the gate looks at a different parent value than the one managed); "+pathWhy(w))
+		// … and whenever one of the two holds: after the hook answered, a successful end of the sync that
+		// has NOT managed the children must have seen both 'deletion pending' and 'not ours to finalize'
+		if e.Hook != nil {
+			notAlive := func(l Lit) bool {
+				v, isNil, ok := l.NilTest()
+				if !ok || isNil {
+					return false
+				}
+				c := callOf(v)
+				return c != nil && strings.HasSuffix(engine.CallKey(c.Common()), ".GetDeletionTimestamp")
+			}
+			notFinalizing := func(l Lit) bool { return !l.Pos && isShouldFinalizeLit(l) }
+			okC, whyC := true, ""
+			for name, g := range map[string]func(Lit) bool{"the parent is not pending deletion": notAlive, "ShouldFinalize(parent) holds": notFinalizing} {
+				wq := engine.Query{Fn: f, From: []engine.Point{engine.After(e.Hook.Instr.(ssa.Instruction))},
+					Target:   func(x ssa.Instruction) bool { rt, isR := x.(*ssa.Return); return isR && !isErrReturn(rt) },
+					CutInstr: func(x ssa.Instruction) bool { return x == in },
+					CutEdge: guardCut(func(l Lit) bool {
+						if g(l) {
+							return true
+						}
+						// no answer from the hook (no hook enabled): nothing to reconcile towards
+						if v, isNil, isT := l.NilTest(); isT && isNil && engine.SameValue(v, engine.ResultValue(e.Hook.Instr, 0)) {
+							return true
+						}
+						// the parent write was refused as gone/conflicting: the documented early end of this sync
+						if c, isC := l.Cond.(*ssa.Call); isC && l.Pos {
+							k := engine.CallKey(c.Common())
+							return k == engine.KAPIErr+"IsNotFound" || k == engine.KAPIErr+"IsConflict"
+						}
+						return false
+					})}.Find()
+				if wq != nil {
+					okC, whyC = false, "the sync can end successfully without ManageChildren although "+name+" (the two conditions are meant as alternatives): children are never reconciled for such parents; "+pathWhy(wq)
+				}
+			}
+			r.Check(rule, FK(f)+"[managed-whenever-alive-or-finalizing]", p.InstrPos(in), okC, "children are skipped only for a dying parent we do not finalize", whyC)
+		}
 		// the gate must see the parent as left by this sync's finalizer edits
 		for i, cs := range callsTo(f, false, "ResourceClient.RemoveFinalizer", "ResourceClient.AddFinalizer") {
 			ci := cs.Instr.(ssa.Instruction)
